@@ -10,7 +10,9 @@ bytewise (`按字典序`), `+` and `.` concatenate strings, `===` compares kind 
 
 `eval` is partial: `none` = outside the documented domain (mixed string/number operands or bool /
 null in arithmetic, arrays and objects, mixed int/float `%`, …). On such operands only the coherence
-laws and the no-crash clause are claimed.
+laws, the no-crash clause and the **result kind** the language fixes whatever the operands are
+(`fixedKind`: `.` a string, comparisons / logical operators a bool, `<=>` an int, `/` a float, bit
+operations and shifts an int) are claimed. `.` is documented on all scalar pairs (`render`).
 
 Comparison of operands of different kinds follows the PHP-8 table (the rule `data.LooseCompare`
 documents since `fix: … one loose comparison`), stated here the way the PHP manual does — *convert
